@@ -87,7 +87,7 @@ def cases(tier):
     for t in ("boxcox", "tdist", "john_draper"):
         out.append(("etatrans", t))
     for em in ("additive", "proportional", "combined", "additive_direct", "proportional_direct", "combined_direct", "additive_log", "proportional_log", "combined_log", "power", "iiv_on_ruv", "weighted", "dtbs",
-               "time_varying"):
+               "time_varying", "time_varying_combined"):
         out.append(("error", em))
     out.append(("allometry",))
     # likelihood-based handling of observations below the limit of quantification: how the limit is given x method
@@ -377,6 +377,7 @@ def run_case(model, case):
                 "power": (lambda m: pm.set_power_on_ruv(pm.set_proportional_error_model(m)), {}),
                 "iiv_on_ruv": (pm.set_iiv_on_ruv, {}), "weighted": (pm.set_weighted_error_model, {}), "dtbs": (pm.set_dtbs_error_model, {}),
                 "time_varying": (lambda m: pm.set_time_varying_error_model(m, cutoff=3.0), {}),
+                "time_varying_combined": (lambda m: pm.set_combined_error_model(pm.set_time_varying_error_model(m, cutoff=3.0)), {}),
             }
             f, kw = table[em]
             m2, st = call(f, **kw)
@@ -534,6 +535,33 @@ def check_error_model(m2, em):
             env[str(s.symbol)] = ev(s.expression, env)
         return env[str(dv)], env
 
+    if em.startswith("time_varying"):
+        # documented: before the cut-off every residual term is multiplied by the time_varying theta, after it the error model is
+        # the plain one (proportional: F*eps; combined: F*eps_p + eps_a)
+        tv = [n for n in m2.parameters.names if "time_varying" in n.lower()]
+        if not tv:
+            return ["time varying error model: no time_varying parameter was added"]
+        base[tv[0]] = 0.6
+        for amount in (20.0, 55.0):
+            d = {}
+            for when, t in (("before", 1.0), ("after", 5.0)):
+                rec["TIME"] = t
+                f0, _ = Y(amount, [0.0] * len(epss))
+                for k in range(len(epss)):
+                    e = [0.0] * len(epss)
+                    e[k] = 0.1
+                    d[(when, k)] = (Y(amount, e)[0] - f0) / 0.1
+                d[(when, "f")] = f0
+            f0 = d[("after", "f")]
+            after = sorted(d[("after", k)] for k in range(len(epss)))
+            want_after = sorted([f0, 1.0]) if em.endswith("combined") else [f0] * len(epss)
+            if len(after) != len(want_after) or any(not close(a, b, 1e-7) for a, b in zip(after, want_after)):
+                fails.append(f"{em}: after the cut-off dY/deps = {after} at F = {f0:.6g}, expected {want_after}")
+            for k in range(len(epss)):
+                if not close(d[("before", k)], 0.6 * d[("after", k)], 1e-7):
+                    fails.append(f"{em}: before the cut-off dY/d{epss[k]} = {d[('before', k)]:.6g}, expected time_varying x the value after "
+                                 f"the cut-off = {0.6 * d[('after', k)]:.6g}")
+        return fails[:10]
     for amount in (20.0, 55.0):
         f0, env0 = Y(amount, [0.0] * len(epss))
         em = em.replace("_direct", "")
